@@ -63,6 +63,9 @@ func (m *RuleManager) Initialize(maxReplica int, locationLabels []string) error 
 		return nil
 	}
 
+	// Start from an empty configuration: what an earlier, failed Initialize has left behind would make
+	// loadRules take every stored rule for a duplicate and delete it from the storage.
+	m.ruleConfig = newRuleConfig()
 	if err := m.loadRules(); err != nil {
 		return err
 	}
